@@ -1,18 +1,381 @@
-//! C06 — placeholder, replaced below.
+//! C06 — noise between values never changes them; `--on-error` policies do what they say.
+
 use super::{Budget, Property, ShrinkCaps};
 use crate::case::*;
 use crate::common::*;
+use crate::gen::*;
 use crate::rng::Rng;
+use crate::run::*;
 
 pub struct C06;
 
+const READ_AHEAD: usize = 128 * 1024;
+
+/// the stream with every garbage region replaced by one newline
+fn clean_of(pieces: &[Piece]) -> Vec<u8> {
+    let mut v = Vec::new();
+    for p in pieces {
+        if p.kind == Kind::Garbage {
+            v.push(b'\n');
+        } else {
+            v.extend_from_slice(&p.bytes.0);
+        }
+    }
+    v
+}
+
+/// (offset of the first non-whitespace byte of each garbage region in the noisy stream,
+///  clean stream cut just before that region)
+fn regions(pieces: &[Piece]) -> Vec<(usize, Vec<u8>)> {
+    let mut out = Vec::new();
+    let mut noisy_off = 0;
+    let mut clean: Vec<u8> = Vec::new();
+    for p in pieces {
+        if p.kind == Kind::Garbage {
+            let lead = p
+                .bytes
+                .0
+                .iter()
+                .position(|b| !matches!(b, b' ' | b'\t' | b'\n' | b'\r'))
+                .unwrap_or(0);
+            out.push((noisy_off + lead, clean.clone()));
+            clean.push(b'\n');
+        } else {
+            clean.extend_from_slice(&p.bytes.0);
+        }
+        noisy_off += p.bytes.0.len();
+    }
+    out
+}
+
+fn with_policy(case: &Case, p: Policy) -> Case {
+    let mut c = case.clone();
+    c.opts.retain(|o| !o[0].starts_with("--on-error"));
+    c.opts.push(policy_opt(p));
+    c
+}
+
+/// split into (bytes without `error:` lines, for every error line the offset it has in the
+/// error-free text)
+fn strip_error_lines(b: &[u8]) -> (Vec<u8>, Vec<usize>, bool) {
+    let mut rest = Vec::new();
+    let mut at = Vec::new();
+    let mut unterminated = false;
+    let mut i = 0;
+    while i < b.len() {
+        let e = b[i..].iter().position(|x| *x == b'\n').map_or(b.len(), |p| i + p + 1);
+        let line = &b[i..e];
+        if line.starts_with(b"error:") {
+            at.push(rest.len());
+            if !line.ends_with(b"\n") {
+                unterminated = true;
+            }
+        } else {
+            rest.extend_from_slice(line);
+        }
+        i = e;
+    }
+    (rest, at, unterminated)
+}
+
+fn only_error_lines(b: &[u8]) -> Result<usize, String> {
+    let mut n = 0;
+    let mut i = 0;
+    while i < b.len() {
+        let e = b[i..].iter().position(|x| *x == b'\n').map_or(b.len(), |p| i + p + 1);
+        let line = &b[i..e];
+        if !line.starts_with(b"error:") {
+            return Err(format!("a line that is not a diagnostic: {}", show(line)));
+        }
+        if !line.ends_with(b"\n") {
+            return Err(format!("an unterminated diagnostic line: {}", show(line)));
+        }
+        n += 1;
+        i = e;
+    }
+    Ok(n)
+}
+
 impl Property for C06 {
-    fn id(&self) -> &'static str { "C06" }
-    fn level(&self) -> &'static str { "exploration" }
-    fn rule(&self) -> &'static str { "" }
-    fn assumptions(&self) -> Vec<String> { vec![] }
-    fn shrink_caps(&self) -> ShrinkCaps { ShrinkCaps { drop_pieces: true, simplify_records: false, shrink_raw: true, drop_opts: true } }
-    fn budget(&self, _tier: Tier) -> Budget { Budget { seconds: 5, max_cases: 10 } }
-    fn generate(&self, _rng: &mut Rng, _tier: Tier) -> Case { Case::new("C06", "todo") }
-    fn check(&self, _case: &Case, _ctx: &mut Ctx) -> Option<Violation> { None }
+    fn id(&self) -> &'static str {
+        "C06"
+    }
+    fn level(&self) -> &'static str {
+        "exploration"
+    }
+    fn rule(&self) -> &'static str {
+        "A scenario = clean generated stream with whitespace-delimited garbage regions (1..3 tokens of bytes that cannot start a JSON value, incl. } ] , : . e E + and non-UTF-8 bytes) dropped into its gaps (also before the first and after the last value) x one of the four --on-error policies x a pipeline of any class (JSON rows with the default separator under the stdout policy) x a seeded delivery plan. Compared with executions of the same build on the garbage-free stream (same policy and under `ignore`) and, for `panic` and for the placement of diagnostics under `stdout`, on the clean prefix cut before each region. A region counts only if the event log shows that its first byte was consumed. evaluations = jawk executions; non-trivial = at least one garbage region was reached; distinct = distinct abstract traces."
+    }
+    fn assumptions(&self) -> Vec<String> {
+        vec![
+            "garbage is confined to gaps between top-level values (noise inside a value is C05's domain)".into(),
+            "rows are recognised as 'not starting with error:' - guaranteed by JSON output with the default row separator, which is what the stdout policy is combined with".into(),
+            "reference runs are executions of the same jawk build".into(),
+        ]
+    }
+    fn shrink_caps(&self) -> ShrinkCaps {
+        ShrinkCaps {
+            drop_pieces: true,
+            simplify_records: true,
+            shrink_raw: false,
+            drop_opts: true,
+        }
+    }
+    fn budget(&self, tier: Tier) -> Budget {
+        match tier {
+            Tier::Quick => Budget {
+                seconds: 25,
+                max_cases: 40_000,
+            },
+            Tier::Thorough => Budget {
+                seconds: 600,
+                max_cases: 4_000_000,
+            },
+        }
+    }
+
+    fn generate(&self, rng: &mut Rng, tier: Tier) -> Case {
+        let mut case = Case::new("C06", "noise");
+        let pol = *rng.pick(&[Policy::Ignore, Policy::Panic, Policy::Stderr, Policy::Stdout]);
+        let w = StreamWish {
+            min_records: 0,
+            max_records: if tier == Tier::Thorough { 30 } else { 10 },
+            noise_eighths: *rng.pick(&[0usize, 1, 2, 4, 8]),
+            allow_touch: true,
+            spell_level: 1,
+            allow_big: true,
+            schema_only: false,
+        };
+        case.pieces = gen_stream(rng, &w);
+        if count_kind(&case.pieces, Kind::Garbage) == 0 && rng.chance(3, 4) {
+            // make sure most scenarios have noise somewhere
+            let at = rng.below(case.pieces.len() + 1);
+            let at = fix_insert_point(&case.pieces, at);
+            case.pieces.insert(at, Piece::garbage(gen_garbage_region(rng)));
+        }
+        let mut wish = PipeWish::any();
+        wish.allow_corpus = false;
+        if pol == Policy::Stdout {
+            wish.style = Some(Style::Json);
+            wish.default_rows = true;
+        }
+        case.opts = gen_pipe(rng, &wish).opts;
+        case.opts.push(policy_opt(pol));
+        case.delivery = gen_delivery(rng, case.stream().len());
+        case
+    }
+
+    fn check(&self, case: &Case, ctx: &mut Ctx) -> Option<Violation> {
+        if case.pieces.iter().any(|p| p.kind == Kind::Raw) {
+            ctx.stats.invalid = true;
+            return None;
+        }
+        let pol = policy_of(&case.opts);
+        let class = classify(&case.opts);
+        let noisy = case.stream();
+        let clean = clean_of(&case.pieces);
+        let regs = regions(&case.pieces);
+        // the clean stream under `ignore` and under the policy
+        let clean_ignore = ctx.exec(ref_spec(&with_policy(case, Policy::Ignore), &clean));
+        if !clean_ignore.outcome.is_ok() {
+            ctx.stats.invalid = true;
+            ctx.jawk_panic = None;
+            return None;
+        }
+        let clean_pol = ctx.exec(ref_spec(case, &clean));
+        if !clean_pol.outcome.is_ok()
+            || clean_pol.obs.stdout != clean_ignore.obs.stdout
+            || !clean_pol.obs.stderr.is_empty()
+            || !clean_ignore.obs.stderr.is_empty()
+        {
+            return viol(
+                "C06.clean",
+                format!(
+                    "a clean stream behaves differently under {pol:?}: {} stdout {} stderr {} (ignore: stdout {})",
+                    clean_pol.outcome.describe(),
+                    show(&clean_pol.obs.stdout),
+                    show(&clean_pol.obs.stderr),
+                    show(&clean_ignore.obs.stdout)
+                ),
+            );
+        }
+        let r = ctx.exec(case_spec(case, &noisy));
+        if let Outcome::Abort(w) = &r.outcome {
+            return viol("C06.terminates", format!("run aborted by the simulator: {w}"));
+        }
+        if matches!(r.outcome, Outcome::Panic(..)) {
+            return None;
+        }
+        let reached: Vec<&(usize, Vec<u8>)> = regs.iter().filter(|(o, _)| r.obs.consumed > *o).collect();
+        ctx.stats.fault("garbage-region-reached", reached.len() as u64);
+        ctx.stats.probe_n("garbage regions planned but never reached (run stopped first)", (regs.len() - reached.len()) as u64);
+        if !reached.is_empty() {
+            ctx.stats.nontrivial = true;
+            ctx.stats.probe(&format!("noisy scenario under {pol:?}"));
+            if reached.len() < regs.len() {
+                ctx.stats.probe("some regions unreached");
+            }
+            if reached[0].0 <= 1 {
+                ctx.stats.probe("garbage before the first value");
+            }
+        }
+        let stdout_rule = |so: &[u8]| -> Option<Violation> {
+            if so != clean_pol.obs.stdout.as_slice() {
+                return viol(
+                    "C06.rows",
+                    format!(
+                        "{pol:?}: rows differ from the run on the garbage-free stream (first difference at byte {}): {} vs {}",
+                        common_prefix(so, &clean_pol.obs.stdout),
+                        show(so),
+                        show(&clean_pol.obs.stdout)
+                    ),
+                );
+            }
+            None
+        };
+        match pol {
+            Policy::Ignore => {
+                if !r.outcome.is_ok() {
+                    return viol("C06.ignore", format!("run failed under ignore: {}", r.outcome.describe()));
+                }
+                if let Some(v) = stdout_rule(&r.obs.stdout) {
+                    return Some(v);
+                }
+                if !r.obs.stderr.is_empty() {
+                    return viol("C06.ignore", format!("ignore wrote to stderr: {}", show(&r.obs.stderr)));
+                }
+            }
+            Policy::Stderr => {
+                if !r.outcome.is_ok() {
+                    return viol("C06.stderr", format!("run failed under stderr: {}", r.outcome.describe()));
+                }
+                if let Some(v) = stdout_rule(&r.obs.stdout) {
+                    return Some(v);
+                }
+                match only_error_lines(&r.obs.stderr) {
+                    Err(e) => return viol("C06.stderr", format!("stderr contains {e}")),
+                    Ok(n) => {
+                        if n < reached.len() {
+                            return viol(
+                                "C06.stderr",
+                                format!("{} malformed regions were reached but only {n} diagnostics were written", reached.len()),
+                            );
+                        }
+                        if reached.is_empty() && n > 0 {
+                            return viol("C06.stderr", format!("diagnostics without any reached garbage: {}", show(&r.obs.stderr)));
+                        }
+                    }
+                }
+            }
+            Policy::Stdout => {
+                if !r.outcome.is_ok() {
+                    return viol("C06.stdout", format!("run failed under stdout: {}", r.outcome.describe()));
+                }
+                if !r.obs.stderr.is_empty() {
+                    return viol("C06.stdout", format!("stdout policy wrote to stderr: {}", show(&r.obs.stderr)));
+                }
+                let (rest, at, unterminated) = strip_error_lines(&r.obs.stdout);
+                if unterminated {
+                    return viol("C06.stdout", "an unterminated diagnostic line on stdout".to_string());
+                }
+                if let Some(v) = stdout_rule(&rest) {
+                    return Some(v);
+                }
+                if at.len() < reached.len() {
+                    return viol(
+                        "C06.stdout",
+                        format!("{} malformed regions were reached but only {} diagnostics were written", reached.len(), at.len()),
+                    );
+                }
+                if reached.is_empty() && !at.is_empty() {
+                    return viol("C06.stdout", "diagnostics without any reached garbage".to_string());
+                }
+                if class == Class::Stateless {
+                    // placement: the diagnostics of a region sit after the rows of the values
+                    // that precede it and before the row of the next value
+                    let mut allowed = Vec::new();
+                    for (_, prefix) in &reached {
+                        let p = ctx.exec(ref_spec(&with_policy(case, Policy::Ignore), prefix));
+                        if !p.outcome.is_ok() {
+                            ctx.stats.invalid = true;
+                            ctx.jawk_panic = None;
+                            return None;
+                        }
+                        allowed.push(p.obs.stdout.len());
+                    }
+                    ctx.stats.probe("diagnostic placement checked");
+                    for a in &allowed {
+                        if !at.contains(a) {
+                            return viol(
+                                "C06.stdout-placement",
+                                format!("no diagnostic between the rows of the values before a malformed region (row bytes {a}) and the next row; diagnostics sit at row-byte offsets {at:?}"),
+                            );
+                        }
+                    }
+                    for x in &at {
+                        if !allowed.contains(x) {
+                            return viol(
+                                "C06.stdout-placement",
+                                format!("a diagnostic at row-byte offset {x} does not correspond to any malformed region (regions at {allowed:?})"),
+                            );
+                        }
+                    }
+                }
+            }
+            Policy::Panic => {
+                if reached.is_empty() {
+                    if !r.outcome.is_ok() {
+                        return viol("C06.panic", format!("no garbage was reached but the run failed: {}", r.outcome.describe()));
+                    }
+                    if let Some(v) = stdout_rule(&r.obs.stdout) {
+                        return Some(v);
+                    }
+                } else {
+                    if !r.outcome.is_err() {
+                        return viol(
+                            "C06.panic",
+                            format!("garbage at byte {} was consumed under panic but the run returned {}", reached[0].0, r.outcome.describe()),
+                        );
+                    }
+                    if r.obs.consumed > reached[0].0 + 1 + READ_AHEAD {
+                        return viol(
+                            "C06.panic",
+                            format!("run went on for {} bytes past the first malformed byte", r.obs.consumed - reached[0].0),
+                        );
+                    }
+                    if r.obs.consumed <= reached[0].0 + 2 {
+                        ctx.stats.probe("panic stopped within the look-ahead byte");
+                    }
+                    if class != Class::Buffering {
+                        let p = ctx.exec(ref_spec(&with_policy(case, Policy::Ignore), &reached[0].1));
+                        if !p.outcome.is_ok() {
+                            ctx.stats.invalid = true;
+                            ctx.jawk_panic = None;
+                            return None;
+                        }
+                        if r.obs.stdout != p.obs.stdout {
+                            return viol(
+                                "C06.panic",
+                                format!(
+                                    "rows emitted before the failure are not exactly the rows of the values preceding the first malformed byte: {} vs {}",
+                                    show(&r.obs.stdout),
+                                    show(&p.obs.stdout)
+                                ),
+                            );
+                        }
+                    }
+                }
+                if !r.obs.stderr.is_empty() {
+                    return viol("C06.panic", format!("panic policy wrote to stderr: {}", show(&r.obs.stderr)));
+                }
+            }
+        }
+        None
+    }
+}
+
+/// never insert inside a (Rec, Gap) pair in a way that would make two values touch garbage
+/// without whitespace: garbage regions carry their own whitespace, so any index is fine.
+fn fix_insert_point(_pieces: &[Piece], at: usize) -> usize {
+    at
 }
